@@ -22,7 +22,7 @@ from lib import gz, gtext, glist, gbool, gopt
 
 THEOREMS = ['C01_xml_rt', 'C01_xml_rt_spyne']                                   # Props/C01.v (shared model Wire/Xml.v)
 THEOREMS_X = ['C01_xmlx_rt', 'C01_leaf_sound', 'C01_xmlx_rt_spyne']             # Props/C01_x.v (C01/XmlX.v)
-THEOREMS_CALL = ['C01_call_fidelity', 'C01_call_fidelity_spyne']                # Props/C01_call.v (C01/Call.v)
+THEOREMS_CALL = ['C01_call_fidelity', 'C01_call_fidelity_spyne', 'C01_call_documents']                # Props/C01_call.v (C01/Call.v)
 FUEL = 40
 XSI = X.XSI
 
@@ -130,7 +130,9 @@ def corr_objects_x(check, tier):
     per_class = 4 if tier == 'quick' else 10
     prots = {False: XmlDocument(), True: XmlDocument(validator='soft')}
     for ui in range(n_univ):
-        desc = X.gen_universe(rng, n_classes=rng.randint(2, 6), namespaces=('urn:t', 'urn:u', 'urn:v') if ui % 3 else ('urn:t',))
+        desc = X.gen_universe(rng, n_classes=rng.randint(2, 6), namespaces=('urn:t', 'urn:u', 'urn:v') if ui % 3 else ('urn:t',),
+                              allow_sub_ns=True)
+        has_sub_ns = any(f.get('sub_ns') for c in desc['classes'] for f in c['fields'])
         classes = X.build_classes(desc)
         imports = IMPORTS_X + 'Definition UU : universe := %s.\n' % X.g_universe(desc, classes)
         enc_cases, dec_cases = [], []
@@ -166,7 +168,7 @@ def corr_objects_x(check, tier):
                                           'universe %d class %d soft=%s %s: %s -> %r' % (
                                               ui, cid, soft, what, etree.tostring(doc).decode()[:300], d)))
                         check.count(('xdec', soft, etree.tostring(doc)))
-                        if what == 'as written' and not soft:
+                        if what == 'as written' and not soft and not has_sub_ns:
                             # direct oracle, independent reader: the document follows the (would-be) schema, every member
                             # qualified by the namespace of the class that declares it, and denotes the value
                             want = X.norm_value(desc, ('ref', cid), v)
@@ -295,7 +297,25 @@ def request_doc(rng, desc, classes, app, prot, m, call):
     if call['in_header'] is not None and prot != 'xml':
         hdrs = [X.ref_encode(desc, classes, ('ref', c), classes[c], desc['classes'][c]['ns'], desc['classes'][c]['name'], v, rng, tns)
                 for c, v in zip(m['in_header'], call['in_header'])]
-    return X.soap_envelope(prot, hdrs, body), body
+    if prot != 'xml' and m['in_header'] and rng.random() < 0.35:
+        # a foreign header block (think wsse:Security) whose LOCAL name is that of a declared header class: the
+        # declared classes are matched by {namespace}name, so it must be ignored -- also when it stands alone
+        hdrs = foreign_blocks(rng, desc, m['in_header'], hdrs)
+    doc = X.soap_envelope(prot, hdrs, body)
+    if rng.random() < 0.3:
+        X.decorate(rng, doc)      # comments / processing instructions: the document denotes the same request
+    return doc, body
+
+
+def foreign_blocks(rng, desc, hclasses, hdrs):
+    from lxml import etree
+    out = list(hdrs or [])
+    c = rng.choice(hclasses)
+    fb = etree.Element('{urn:foreign:security}%s' % desc['classes'][c]['name'])
+    for f in X.flat_fields(desc, c)[:2]:
+        etree.SubElement(fb, '{urn:foreign:security}%s' % X.wname(f)).text = rng.choice(['x', '7', 'true'])
+    out.insert(rng.randrange(len(out) + 1), fb)
+    return out
 
 
 def captured_log(desc, classes, svc, plan):
@@ -320,9 +340,33 @@ def captured_log(desc, classes, svc, plan):
 
 
 def server_parse(raw):
-    """the tree the server's parser builds (XmlDocument.parser_kwargs: comments and PIs removed)"""
+    """the tree the parser of the protocol builds: XMLParser(**XmlDocument().parser_kwargs), whatever those are"""
     from lxml import etree
-    return etree.fromstring(raw, parser=etree.XMLParser(remove_comments=True, remove_pis=True, resolve_entities=False))
+    from spyne.protocol.xml import XmlDocument
+    return etree.fromstring(raw, parser=etree.XMLParser(**XmlDocument().parser_kwargs))
+
+
+def corr_parser(check, docs):
+    """Call.parse_doc against lxml: for the four settings of remove_comments / remove_pis, the tree lxml builds from
+    the bytes of a document that carries comments and PIs is the one the model builds from its node sequence"""
+    from lxml import etree
+    keep = etree.XMLParser(remove_comments=False, remove_pis=False, resolve_entities=False)
+    cases = []
+    for raw in docs:
+        try:
+            d = X.g_doc(etree.fromstring(raw, parser=keep))
+        except ValueError as e:
+            check.mismatch('xml_parser', '%s in %s' % (e, raw.decode()[:200]))
+            continue
+        for rc in (True, False):
+            for rp in (True, False):
+                t = etree.fromstring(raw, parser=etree.XMLParser(remove_comments=rc, remove_pis=rp, resolve_entities=False))
+                cases.append(('(%s, %s, %s, %s)' % (gbool(rc), gbool(rp), d, X.g_xml(t)),
+                              'XMLParser(remove_comments=%s, remove_pis=%s) on %s' % (rc, rp, raw.decode()[:300])))
+                check.count(('parser', rc, rp, raw))
+    lib.correspond(check, 'xml_parser', IMPORTS_X, 'bool * bool * dnode * xnode',
+                   "(fun c => let '(rc, rp, d, t) := c in xnode_eqb (parse_doc rc rp d) t)", cases,
+                   show="(fun c : bool * bool * dnode * xnode => let '(rc, rp, d, t) := c in parse_doc rc rp d)")
 
 
 def drive_server(app, body_bytes):
@@ -365,9 +409,9 @@ def g_ufun(call):
 class World(object):
     """one generated universe + service, and one Application per (protocol, validator)"""
 
-    def __init__(self, rng, model_only=True, header_ns_tns=False, n_classes=None, n_methods=None, desc=None, svc=None):
+    def __init__(self, rng, model_only=True, header_ns_tns=False, n_classes=None, n_methods=None, desc=None, svc=None, twins=False):
         if desc is None:
-            desc = X.gen_universe(rng, n_classes=n_classes or rng.randint(2, 5), model_only=model_only)
+            desc = X.gen_universe(rng, n_classes=n_classes or rng.randint(2, 5), model_only=model_only, twins=twins)
             svc = X.gen_service(rng, desc, n_methods=n_methods or rng.randint(3, 5), model_only=model_only,
                                 header_ns_tns=header_ns_tns)
         self.desc, self.svc = desc, svc
@@ -393,8 +437,9 @@ def corr_calls(check, tier):
     rng = check.rng
     n_worlds = 6 if tier == 'quick' else 40
     per_method = 2 if tier == 'quick' else 5
+    pdocs = []                      # documents that carry comments / PIs, for the parser correspondence
     for wi in range(n_worlds):
-        w = World(rng)
+        w = World(rng, twins=True)
         groups = {}                 # Coq definitions of the world -> [server cases, client request cases, client response cases]
         for prot in PROTS:
             for val in VALIDATORS:
@@ -411,9 +456,13 @@ def corr_calls(check, tier):
                             client_corr_case(check, w, app, sc, plan, prot, val, mi, m, call, req_cases, resp_cases)
                         doc, body = request_doc(rng, w.desc, w.classes, app, prot, m, call)
                         docs = [(doc, 'as written')]
+                        if len(pdocs) < (10 if tier == 'quick' else 120) and rng.random() < 0.2:
+                            d2 = copy.deepcopy(doc)
+                            X.decorate(rng, d2, n=rng.randint(2, 6))
+                            pdocs.append(etree.tostring(d2))
                         for _ in range(2):
                             d2 = copy.deepcopy(doc)
-                            b2 = d2 if prot == 'xml' else d2.find('{*}Body')[0]
+                            b2 = d2 if prot == 'xml' else elems(d2.find('{*}Body'))[0]
                             what = mutate(rng, b2)
                             if what:
                                 docs.append((d2, what))
@@ -471,6 +520,7 @@ def corr_calls(check, tier):
                                 '| None => Crash OtherExn end)' % FUEL)
         if wi == 0:
             check.sample({'service': X.jsonable(w.svc)})
+    corr_parser(check, pdocs)
 
 
 def client_corr_case(check, w, app, sc, plan, prot, val, mi, m, call, req_cases, resp_cases):
@@ -537,6 +587,62 @@ def client_corr_case(check, w, app, sc, plan, prot, val, mi, m, call, req_cases,
     resp_cases.append(('(%s%d%%nat, %s, %s)' % (pv, mi, X.g_xml(rtree), g_o),
                        '%s/%s %s response %s -> %r' % (prot, val, m['name'], received.decode()[:400], r[:2])))
     check.count(('client_resp', prot, val, received))
+    foreign = r[0] == 'ok' and prot != 'xml' and bool(m['out_header']) and check.rng.random() < 0.7
+    comments = r[0] == 'ok' and check.rng.random() < 0.3
+    if foreign or comments:
+        # the same response (a) with a foreign header block whose local name is that of a declared header class,
+        # (b) with comments / processing instructions in it: the client must read the same value and the same declared headers
+        t2 = copy.deepcopy(rtree)
+        what = []
+        if foreign:
+            ns = X.NS_SOAP11 if prot == 'soap11' else X.NS_SOAP12
+            h = t2.find('{%s}Header' % ns)
+            if h is None:
+                h = etree.Element('{%s}Header' % ns)
+                t2.insert(0, h)
+            fb = foreign_blocks(check.rng, desc, m['out_header'], [])[0]
+            h.insert(check.rng.randrange(len(h) + 1), fb)
+            what.append('a foreign header block {urn:foreign:security}%s' % fb.tag.split('}')[1])
+        if comments:
+            what.extend(X.decorate(check.rng, t2))
+        site = 'client-foreign-header' if foreign else 'client-comments'
+        what = ', '.join(what)
+        raw2 = etree.tostring(t2)
+        try:
+            o2, h2 = Z.client_read(sc, m['name'], raw2)
+        except Exception as e:
+            check.fail('C01|call|%s|%s|%s' % (site, prot, type(e).__name__),
+                       'the Spyne client fails on a response that carries %s: %r for %s' % (what, e, raw2.decode()[:500]),
+                       call_replay(w, prot, val, m, call, {'client': 'spyne', 'response': raw2.decode('utf-8', 'replace')}))
+            return
+        if not rets:
+            got2 = ('none',)
+        elif len(rets) == 1:
+            got2 = X.field_from_native(desc, classes, rets[0], o2)
+        else:
+            got2 = ('list', [X.field_from_native(desc, classes, rr, getattr(o2, k, None)) for rr, k in zip(rets, keys)])
+        if h2 is None:
+            got_h2 = None
+        elif len(m['out_header']) == 1:
+            got_h2 = [X.from_native(desc, classes, ('ref', m['out_header'][0]), h2)]
+        else:
+            got_h2 = [X.from_native(desc, classes, ('ref', c), x) for c, x in zip(m['out_header'], h2)]
+        if X.in_universe(got2) and (got_h2 is None or all(X.in_universe(v) for v in got_h2)):
+            resp_cases.append(('(%s%d%%nat, %s, (Ok (%s, %s)))' % (pv, mi, X.g_xml(server_parse(raw2)), X.g_val(got2),
+                                                                    gopt(got_h2, lambda hh: glist([X.g_val(v) for v in hh]))),
+                               '%s/%s %s response with %s: %s' % (prot, val, m['name'], what, raw2.decode()[:400])))
+        none_like = lambda hh: hh is None or all(v == ('none',) for v in hh)
+        same_h = (none_like(got_h) and none_like(got_h2)) or (got_h is not None and got_h2 is not None and len(got_h) == len(got_h2)
+                                                              and all(X.eq_value(a, b) for a, b in zip(got_h, got_h2)))
+        if not (X.eq_value(got, got2) and same_h):
+            check.fail('C01|call|%s|%s|changed-reading' % (site, prot),
+                       '%s changes what the Spyne client reads: %r / %r instead of %r / %r from %s' % (
+                           what, got2, got_h2, got, got_h, raw2.decode()[:500]),
+                       call_replay(w, prot, val, m, call, {'client': 'spyne', 'response': raw2.decode('utf-8', 'replace')}))
+
+
+def elems(e):
+    return [k for k in e if isinstance(k.tag, str)]
 
 
 def mutate_envelope(rng, env):
@@ -550,20 +656,21 @@ def mutate_envelope(rng, env):
             return 'drop Header'
     if r < 0.5:
         h = env.find('{*}Header')
-        if h is not None and len(h):
-            h.append(copy.deepcopy(h[0]))
+        if h is not None and elems(h):
+            h.append(copy.deepcopy(elems(h)[0]))
             return 'duplicate header entry'
     if r < 0.7:
         h = env.find('{*}Header')
-        if h is not None and len(h) >= 2:
-            a = h[0]
+        if h is not None and len(elems(h)) >= 2:
+            a = elems(h)[0]
             h.remove(a)
             h.append(a)
             return 'reorder header entries'
     if r < 0.85:
         b = env.find('{*}Body')
-        if b is not None and len(b):
-            b[0].tag = etree.QName(b[0]).namespace and '{%s}%s' % (etree.QName(b[0]).namespace, 'noSuchMethod') or 'noSuchMethod'
+        if b is not None and elems(b):
+            b0 = elems(b)[0]
+            b0.tag = etree.QName(b0).namespace and '{%s}%s' % (etree.QName(b0).namespace, 'noSuchMethod') or 'noSuchMethod'
             return 'unknown method'
     env.tag = '{urn:not-soap}Envelope'
     return 'foreign envelope'
@@ -590,6 +697,12 @@ def oracle_server_case(check, w, prot, val, m, call, raw, obs, log, client):
     if prot == 'xml':
         ih = None
     want = [(m['name'], ih, args)]
+    got_ih = log[0][1] if len(log) == 1 else None
+    if got_ih is not None and all(v == ('none',) for v in got_ih):
+        got_ih = None        # a Header element without any of the declared blocks: every declared header is absent
+        log = [(log[0][0], None, log[0][2])]
+    if ih is not None and all(v == ('none',) for v in ih):
+        ih = None
     ok = obs[0] == 'return' and len(log) == 1 and log[0][0] == m['name'] \
         and ((log[0][1] is None) == (ih is None)) \
         and (ih is None or (len(ih) == len(log[0][1]) and all(X.eq_value(a, b) for a, b in zip(log[0][1], ih)))) \
@@ -636,13 +749,27 @@ def obj_fail(check, desc, cid, v, stage, what):
                {'kind': 'object', 'universe': X.jsonable(desc), 'cid': cid, 'value': X.jsonable(v), 'stage': stage})
 
 
+LEAF_PINS = ['pin_tok_' + n for n in (
+    'bin_from_base64', 'bin_to_base64', 'in__parse_datetime_iso_match', 'in_boolean_from_bytes', 'in_byte_array_from_bytes',
+    'in_date_from_unicode', 'in_date_from_unicode_iso', 'in_datetime_from_unicode_iso', 'in_duration_from_unicode',
+    'in_integer_from_bytes', 'in_time_from_unicode', 'out__datetime_to_unicode', 'out_boolean_to_unicode',
+    'out_byte_array_to_unicode', 'out_date_to_unicode', 'out_datetime_to_unicode', 'out_duration_to_unicode',
+    'out_integer_to_unicode', 'out_time_to_unicode')] + ['pin_val_fmt_' + n for n in (
+    'DateTime_dt_format', 'DateTime_out_format', 'DateTime_string_format', 'Date_date_format', 'Time_time_format')]
+
+
 def run(check):
     tier = check.tier
     check.rule = ('generated type universes (2-6 classes, inheritance, XmlAttribute / XmlData members, wrapped arrays, '
-                  'max_occurs>1 members, customised integer types, 8 primitive kinds in the model and Decimal/Double/Uuid/'
-                  'customised Unicode in the oracle, member names shared between classes) and generated services (wrapped / '
-                  'bare / out_bare, 0-3 parameters, 0-3 return values, header classes in and out) with schema-conformant '
-                  'values incl. boundary values, plus a stream of structurally and lexically mutated documents; a case is '
+                  'max_occurs>1 members, members with a sub_name / sub_ns declared in a base class and read through subclasses and '
+                  'customised variants, class chains crossing 2-3 namespaces, customised integer types, 8 primitive kinds in the '
+                  'model and Decimal/Double/Uuid/customised Unicode in the oracle, member names shared between classes) and '
+                  'generated services (wrapped / bare / out_bare, 0-3 parameters, 0-3 return values, header classes in and out, '
+                  'header classes sharing their type name across namespaces, foreign header blocks in requests and responses) '
+                  'with schema-conformant values incl. the boundary values of the C08 generators for every leaf kind (integer '
+                  'widths and powers of ten, every zero/non-zero shape of a duration\'s days x seconds x microseconds in both '
+                  'signs, UTC offsets down to the minute, 1-6 digit fractions, chunked ByteArray values, equivalent literals '
+                  'such as +5 / 1 / Z / trailing zeros / line-wrapped base64 from the reference writer), plus a stream of structurally and lexically mutated documents; a case is '
                   'distinct by (operation, protocol, validator, universe, class or method, value or document)')
     check.trusted = list(lib.COMMON_TRUSTED) + [
         'lxml/libxml2 (parsing, serialisation, namespace handling, XSD validation): the models work on parsed trees; the one '
@@ -663,11 +790,11 @@ def run(check):
         'the identity on its lexical form, and is covered by the oracle only',
         'validator=lxml: libxml2 accepts the request body the client writes (hypothesis of C01_call_fidelity; observed on every '
         'conformant request of the run; the modelled subset of XSD validation is C06)',
-        'wf_universe: distinct flattened member names, XmlAttribute/XmlData wrap single-valued primitives, a class with XmlData has no '
+        'wf_universe: distinct flattened member names and wire names (sub_name), a member in a namespace of its own (sub_ns) is an element, XmlAttribute/XmlData wrap single-valued primitives, a class with XmlData has no '
         'element members and no relatives (xs:simpleContent), header classes have distinct qualified names, method names are '
         'distinct, the service does not live in the SOAP envelope namespace',
-        'not modelled (never generated by the correspondences): polymorphism / xsi:type (C16), Attributes.default, sub_name/sub_ns on '
-        'members, href/id multi-reference SOAP encoding, AnyXml/AnyDict/AnyHtml/File/Enum members, MTOM, out_stream serialisation, '
+        'not modelled (never generated by the correspondences): polymorphism / xsi:type (C16), Attributes.default, '
+        'href/id multi-reference SOAP encoding, AnyXml/AnyDict/AnyHtml/File/Enum members, MTOM, out_stream serialisation, '
         'faults as responses (C09), XML-level hostility (C10/C17)',
         'zeep limitations that narrow what is compared through it: it reads an empty element as None whatever its type, ignores '
         'xsi:nil on complex-typed elements, cannot write xsd.Nil items in sequences or absent simple content, cannot parse a reply '
@@ -684,11 +811,15 @@ def run(check):
             return True
         return orig_fail(key, what, replay)
     check.fail = limited_fail
-    check.regen(['numtypes', 'xmlwire'])
+    check.regen(['numtypes', 'xmlwire', 'tokens'])
     check.check_sources()
     check.prove('Props.C01', THEOREMS)
     check.prove('Props.C01_x', THEOREMS_X)
     check.prove('Props.C01_call', THEOREMS_CALL)
+    # the leaf codec of the theorems is C08's models of the to_unicode / from_unicode functions: the decisive tokens of
+    # the functions behind the eight leaf kinds used here, regenerated from the source (Gen/Tokens.v), are pinned to
+    # what those models transcribe (C08/Pins.v) in this run as well
+    check.prove('C08.Pins', LEAF_PINS)
     import time
     t0 = time.time()
     for name, fn in (('wire objects', c01_wire.corr_objects), ('x objects', corr_objects_x), ('calls', corr_calls),
@@ -746,12 +877,26 @@ def replay(check, path):
         app, plan = w.app(prot, val)
         wapp = WsgiApplication(app)
         client = rp.get('client', '') or rp.get('decoder', '')
+        if rp.get('request') and 'zeep' not in client and 'spyne' not in client:
+            # exactly the stored request document
+            raw = rp['request'].encode('utf-8')
+            plan_call(plan, w.desc, w.classes, m, call)
+            status, out = Z.wsgi_call(wapp, raw, Z.MIME[prot])
+            log = captured_log(w.desc, w.classes, w.svc, plan)
+            print('stored request -> %s, call log %r' % (status, log))
+            obs = ('return', out) if status.startswith('200') else ('fault', status, out[:300].decode('utf-8', 'replace'))
+            if oracle_server_case(check, w, prot, val, m, call, raw, obs, log, 'stored-request'):
+                oracle_response_case(check, w, app, prot, val, m, call, raw, out, 'ref-decoder/wsgi')
+        if rp.get('response') and 'spyne' in client:
+            stored_response_case(check, w, app, Z.make_spyne_client(app, wapp, prot), prot, val, m, call, rp['response'].encode('utf-8'))
         wsgi_case(check, rng, w, app, wapp, plan, prot, val, m, call)
         if 'zeep' in client and prot != 'xml':
             zeep_case(check, w, app, Z.ZeepSide(app, wapp), plan, prot, val, m, call)
         if 'spyne' in client and m['style'] == 'wrapped':
             spyne_client_case(check, w, app, Z.make_spyne_client(app, wapp, prot), plan, prot, val, m, call)
         print('call log of the last run: %r' % (captured_log(w.desc, w.classes, w.svc, plan),))
+    elif kind == 'probe':
+        probe_sub_ns(check)
     elif kind == 'wsdl':
         from spyne.server.wsgi import WsgiApplication
         w = World(rng, desc=X.unjson(rp['universe']), svc=X.unjson(rp['service']))
@@ -849,9 +994,66 @@ def oracle_response_case(check, w, app, prot, val, m, call, raw, resp, decoder):
 
 
 # ------------------------------------------------------------------ oracle: WsgiApplication + zeep + the Spyne client
+def probe_sub_ns(check):
+    """one fixed service around a member that has Attributes.sub_ns: the protocol writes and reads the element in
+    that namespace, which the published schema must then declare.  (a) the request the Spyne client writes for
+    f(K(a=7)) reaches f under validator='lxml'; (b) zeep, driven by the WSDL, gets K(a=7) back from g()."""
+    from spyne import Application, rpc, ServiceBase, Integer, ComplexModel
+    from spyne.protocol.soap import Soap11
+    from spyne.server.wsgi import WsgiApplication
+    seen = []
+
+    class SubNsK(ComplexModel):
+        __namespace__ = 'urn:t'
+        _type_info = [('a', Integer(sub_ns='urn:w'))]
+
+    class SubNsService(ServiceBase):
+        @rpc(SubNsK, _returns=Integer)
+        def f(ctx, k):
+            seen.append(None if k is None else k.a)
+            return 1
+
+        @rpc(_returns=SubNsK)
+        def g(ctx):
+            return SubNsK(a=7)
+
+    rp = {'kind': 'probe', 'name': 'sub_ns'}
+    try:
+        app = Application([SubNsService], 'urn:t', name='SubNs', in_protocol=Soap11(validator='lxml'), out_protocol=Soap11())
+        wapp = WsgiApplication(app)
+        sc = Z.make_spyne_client(app, wapp, 'soap11')
+    except Exception as e:
+        check.fail('C01|probe|sub_ns|application|%s' % type(e).__name__, 'a service around a member with sub_ns cannot be built: %r' % (e,), rp)
+        return
+    check.count(('probe', 'sub_ns'))
+    proc = sc.service.f
+    try:
+        proc(SubNsK(a=7))
+        err = None
+    except Exception as e:
+        err = e
+    if seen != [7]:
+        check.fail('C01|probe|sub_ns|request-own-wire-form|lxml',
+                   'f(K(a=7)), a: Integer(sub_ns=\'urn:w\'), validator=lxml: the request the Spyne client writes, %s, does not reach the '
+                   'function (%r; calls seen: %r): the element is written as {urn:w}a, the schema the server validates against '
+                   'declares a local element a of the urn:t schema' % ((getattr(proc, 'sent', b'') or b'').decode()[:400], err, seen), rp)
+    try:
+        zs = Z.ZeepSide(app, wapp)
+        r = zs.client.service.g()
+        got = getattr(r, 'a', None)
+    except Exception as e:
+        got = 'zeep raised %r' % (e,)
+    if got != 7:
+        check.fail('C01|probe|sub_ns|response-outside-published-schema',
+                   'g() returned K(a=7), a: Integer(sub_ns=\'urn:w\'); a WSDL-driven client (zeep) reads a=%r from %s: the published schema '
+                   'declares a as a local element of the urn:t schema, the response carries {urn:w}a' % (
+                       got, (zs.received or b'').decode()[:400] if 'zs' in dir() else ''), rp)
+
+
 def oracle_clients(check, tier):
     from spyne.server.wsgi import WsgiApplication
     rng = check.rng
+    probe_sub_ns(check)
     n_worlds = 8 if tier == 'quick' else 60
     per_method = 2 if tier == 'quick' else 4
     stats = check.extra.setdefault('oracle', {'wsgi': 0, 'zeep': 0, 'spyne_client': 0, 'zeep_clients': 0})
@@ -1053,6 +1255,44 @@ def zeep_result(zs, w, app, m, body):
         return vals[0] if len(rets) == 1 else ('list', vals)
     r = rets[0]
     return X.norm_value(desc, r['ty'], zs.from_zeep(desc, classes, r['ty'], d.out_message, body))
+
+
+def stored_response_case(check, w, app, sc, prot, val, m, call, raw):
+    """the Spyne client reads exactly the stored response document: the value and out headers the function returned?"""
+    desc, classes = w.desc, w.classes
+    d = X.method_descriptor(app, m['name'])
+    try:
+        r, ih = Z.client_read(sc, m['name'], raw)
+    except Exception as e:
+        check.fail('C01|call|client-stored-response|%s|%s' % (prot, type(e).__name__),
+                   'the Spyne client fails on the stored response: %r for %s' % (e, raw.decode()[:500]),
+                   call_replay(w, prot, val, m, call, {'client': 'spyne', 'response': raw.decode('utf-8', 'replace')}))
+        return
+    rets = m['returns']
+    keys = list(d.out_message._type_info.keys())
+    if not rets:
+        got = ('none',)
+    elif len(rets) == 1:
+        got = X.norm_field_value(desc, rets[0], X.field_from_native(desc, classes, rets[0], r))
+    else:
+        got = ('list', [X.norm_field_value(desc, rr, X.field_from_native(desc, classes, rr, getattr(r, k, None))) for rr, k in zip(rets, keys)])
+    want = expected_return(desc, m, call)
+    want_h = expected_out_header(desc, m, call, prot)
+    if ih is None:
+        got_h = None
+    elif len(m['out_header']) == 1:
+        got_h = [X.norm_value(desc, ('ref', m['out_header'][0]), X.from_native(desc, classes, ('ref', m['out_header'][0]), ih))]
+    else:
+        got_h = [X.norm_value(desc, ('ref', c), X.from_native(desc, classes, ('ref', c), x)) for c, x in zip(m['out_header'], ih)]
+    none_like = lambda hh: hh is None or all(v == ('none',) for v in hh)
+    print('stored response read by the Spyne client as %r / %r (the function returned %r / %r)' % (got, got_h, want, want_h))
+    ok = X.eq_value(got, want) and ((none_like(got_h) and none_like(want_h)) or (
+        got_h is not None and want_h is not None and len(got_h) == len(want_h) and all(X.eq_value(a, b) for a, b in zip(got_h, want_h))))
+    if not ok:
+        check.fail('C01|call|client-stored-response|%s|changed-reading' % prot,
+                   'the function returned %r (out header %r); the Spyne client reads %r (in_header %r) from %s' % (
+                       want, want_h, got, got_h, raw.decode('utf-8', 'replace')[:500]),
+                   call_replay(w, prot, val, m, call, {'client': 'spyne', 'response': raw.decode('utf-8', 'replace')}))
 
 
 def spyne_client_case(check, w, app, sc, plan, prot, val, m, call):
